@@ -7,6 +7,7 @@ import HmcVerif.Exec.C06
 import HmcVerif.Exec.C08
 import HmcVerif.Exec.C10
 import HmcVerif.Exec.C11
+import HmcVerif.Exec.C12
 import HmcVerif.Exec.C15
 import HmcVerif.Exec.C17
 import HmcVerif.Exec.C18
@@ -37,6 +38,9 @@ def dispatch (cmd : String) : Option (P String) :=
   | "c10.read" => some C10.read
   | "c10.combine" => some C10.comb
   | "c11.run" => some C11.run
+  | "c12.exchange" => some C12.exchange
+  | "c12.events" => some C12.events
+  | "c20.route" => some C12.route
   | "c15.eval" => some C15.eval
   | "c16.tunerun" => some C02.tunerun
   | "c16.lrok" => some C02.lrok
